@@ -54,6 +54,14 @@ def configs(thorough, rng):
             d = dict(c)
             d["part_present"] = "link"
             extra.append(d)
+    for c in out[3::7]:
+        d = dict(c)
+        d["manual_protocol"] = True             # setup() / part_file / __exit__(...) called by hand
+        extra.append(d)
+    for i_, c in enumerate(out[::6]):
+        d = dict(c)
+        d["buffering"] = (0 if not c["text_mode"] else 1) if i_ % 2 else 16
+        extra.append(d)
     for c in out[::5]:
         if c["dest_present"] and c["overwrite"] and not c["part_present"]:
             d = dict(c)
